@@ -13,6 +13,8 @@ open WhatIs WhatIs.Asn1 WhatIs.Spec.Der
     tag number only for the universal class -/
 theorem no_recurse_into_empty : Gen.asn1RecurseIntoEmpty = false := by decide
 theorem value_checks_class : Gen.asn1ValueIgnoresClass = false := by decide
+/-- a UTCTime is shown to the second, as the UTC instant -/
+theorem utc_shows_seconds : Gen.asn1UtcShowsSeconds = true := by decide
 
 /-- TABLE: the regenerated tag-name table is the ASN.1 universal type name table -/
 theorem tags_table_ok : Gen.asn1Tags = universalNames := by decide
@@ -21,7 +23,7 @@ theorem tags_table_ok : Gen.asn1Tags = universalNames := by decide
     one node per TLV element, same nesting (including empty constructed values), type names / tag numbers,
     decoded or hex values. -/
 theorem dump_roundtrip (t : Tlv) (h : Wf t) : dump (enc t) = some (report t) :=
-  Lemmas.Asn1.dump_roundtrip no_recurse_into_empty value_checks_class t h
+  Lemmas.Asn1.dump_roundtrip no_recurse_into_empty value_checks_class utc_shows_seconds t h
 
 /-- ACCEPTANCE: the encoding of any well-formed tree is recognised as binary ASN.1 … -/
 theorem accept_complete (t : Tlv) (h : Wf t) : isBinaryASN1 (enc t) = true :=
@@ -60,7 +62,7 @@ theorem reject_truncated (t : Tlv) (h : Wf t) (n : Nat) (hn : n < (enc t).length
     everything else (all non-universal classes included) hex of the content octets -/
 theorem value_spec (cls tag : Nat) (c : Bytes) (hc : c.Valid) (hw : wfPrimContent cls tag c = true) :
     valueOf cls tag false c = valueText cls tag c :=
-  Lemmas.Asn1.value_spec value_checks_class cls tag c hc hw
+  Lemmas.Asn1.value_spec value_checks_class utc_shows_seconds cls tag c hc hw
 
 -- concrete instances / non-vacuity --------------------------------------------------------------------
 /-- SEQUENCE { INTEGER -129, [5] primitive "AB", SEQUENCE {} , [APPLICATION 1000] constructed { NULL } } -/
